@@ -4,6 +4,8 @@
 //! the real `JsonIndex` and log one event per API call.
 #![allow(dead_code)]
 
+pub mod ib;
+
 use succinctly::json::light::{JsonCursor, JsonIndex, StandardJson};
 use verif_harness::*;
 
